@@ -238,10 +238,108 @@ def _same_comp(got: str, wants: List[str]) -> bool:
     return False
 
 
+def _normalise_rest(f):
+    """Two normal forms for the bridge function (applied to a copy; anything that does not match exactly is left as it is):
+      * `D.update((k, v) for x in A for y in B if C)` as a statement is the nested loop `for x in A: for y in B: if C: D[k] = v`;
+      * select-then-act, `L = [(a, b) for a, b in D.items() if COND]` directly followed by `for a, b in L: BODY`, where L is used nowhere else and
+        BODY consists of `del` statements (possibly inside `for` loops) only, is `for a, b in list(D.items()): if COND: BODY` — deleting entries
+        of the bookkeeping dicts cannot change COND (a test of a pipeline's runtime status) for a later element."""
+    from ..model import Func
+    from ..util import _block_lists
+
+    def upd(st):
+        if not (isinstance(st, ast.Expr) and isinstance(st.value, ast.Call) and isinstance(st.value.func, ast.Attribute) and st.value.func.attr == "update"
+                and len(st.value.args) == 1 and not st.value.keywords and isinstance(st.value.args[0], (ast.GeneratorExp, ast.ListComp))):
+            return None
+        ge = st.value.args[0]
+        if not (isinstance(ge.elt, ast.Tuple) and len(ge.elt.elts) == 2) or any(g_.is_async for g_ in ge.generators):
+            return None
+        return ge
+
+    def only_dels(stmts):
+        for x in stmts:
+            if isinstance(x, ast.Delete):
+                continue
+            if isinstance(x, ast.For) and not x.orelse and only_dels(x.body):
+                continue
+            return False
+        return True
+
+    def sel(blk, i):
+        a = blk[i]
+        if i + 1 >= len(blk) or not (isinstance(a, ast.Assign) and len(a.targets) == 1 and isinstance(a.targets[0], ast.Name) and isinstance(a.value, ast.ListComp)):
+            return None
+        lc = a.value
+        if len(lc.generators) != 1 or lc.generators[0].is_async or len(lc.generators[0].ifs) < 1:
+            return None
+        gen = lc.generators[0]
+        if not (isinstance(gen.iter, ast.Call) and isinstance(gen.iter.func, ast.Attribute) and gen.iter.func.attr == "items" and not gen.iter.args):
+            return None
+        if norm.U(lc.elt) != norm.U(gen.target) and norm.U(lc.elt) != f"({norm.U(gen.target)})":
+            return None
+        b = blk[i + 1]
+        if not (isinstance(b, ast.For) and not b.orelse and norm.is_name(b.iter, a.targets[0].id) and norm.U(b.target) == norm.U(gen.target) and only_dels(b.body)):
+            return None
+        L = a.targets[0].id
+        uses = [x for x in own_nodes(f.node) if isinstance(x, ast.Name) and x.id == L]
+        if len(uses) != 2:
+            return None
+        return a, b, gen
+    hit = any(upd(st) is not None for o in ast.walk(f.node) for _f, blk in _block_lists(o) for st in blk) or \
+        any(sel(blk, i) for o in ast.walk(f.node) for _f, blk in _block_lists(o) for i in range(len(blk)))
+    if not hit:
+        return f
+    node = norm.clone(f.node)
+    f2 = Func(f.mod, f.qual, node, f.cls)
+    f_saved, f = f, f2     # `sel` counts uses in the tree it is applied to
+    for o in list(ast.walk(node)):
+        for _f, blk in _block_lists(o):
+            i = 0
+            while i < len(blk):
+                ge = upd(blk[i])
+                if ge is not None:
+                    st = blk[i]
+                    inner = ast.Assign(targets=[ast.Subscript(value=st.value.func.value, slice=ge.elt.elts[0], ctx=ast.Store())], value=ge.elt.elts[1])
+                    cur = [inner]
+                    for g_ in reversed(ge.generators):
+                        for c_ in reversed(g_.ifs):
+                            cur = [ast.If(test=c_, body=cur, orelse=[])]
+                        tg = g_.target
+                        for x in ast.walk(tg):
+                            if isinstance(x, (ast.Name, ast.Tuple, ast.List)):
+                                x.ctx = ast.Store()
+                        cur = [ast.For(target=tg, iter=g_.iter, body=cur, orelse=[])]
+                    for z in ast.walk(cur[0]):
+                        if isinstance(z, (ast.stmt, ast.expr)) and not hasattr(z, "lineno"):
+                            ast.copy_location(z, st)
+                    ast.copy_location(cur[0], st)
+                    blk[i] = cur[0]
+                    i += 1
+                    continue
+                m = sel(blk, i)
+                if m:
+                    a, b, gen = m
+                    test = gen.ifs[0] if len(gen.ifs) == 1 else ast.BoolOp(op=ast.And(), values=list(gen.ifs))
+                    new = ast.For(target=b.target, iter=ast.Call(func=ast.Name(id="list", ctx=ast.Load()), args=[gen.iter], keywords=[]),
+                                  body=[ast.If(test=test, body=b.body, orelse=[])], orelse=[])
+                    for z in ast.walk(new):
+                        if isinstance(z, (ast.stmt, ast.expr)) and not hasattr(z, "lineno"):
+                            ast.copy_location(z, b)
+                    ast.copy_location(new, b)
+                    blk[i:i + 2] = [new]
+                i += 1
+    ast.fix_missing_locations(node)
+    for n in ast.walk(node):
+        for ch in ast.iter_child_nodes(n):
+            ch._parent = n  # type: ignore[attr-defined]
+    node._parent = getattr(f_saved.node, "_parent", None)  # type: ignore[attr-defined]
+    return f2
+
+
 def check_protocol(ctx):
     P = ctx.P
     from ..util import inline_helpers
-    f = inline_helpers(P, P.fn(REST, "rest_scheduler"))
+    f = _normalise_rest(inline_helpers(P, P.fn(REST, "rest_scheduler")))
     ctx.touch(f)
     g = cfg_of(f, subst_env=False)
     env = single_defs(f)
@@ -291,7 +389,10 @@ def check_protocol(ctx):
         lp = enclosing_for(a, f.node)
         if lp is not None and norm.is_name(lp.iter, pip_p) and isinstance(lp.target, ast.Name) and norm.U(a.targets[0].slice) == f"{lp.target.id}.pipeline_id" and norm.is_name(a.value, lp.target.id):
             byp = g.path_avoiding(g.node_of(post).id, {g.exit.id}, {g.node_of(lp).id})
-            okadd = byp is None
+            hid_ = g.node_of(lp).id
+            # ... every one of them: no iteration of the merge loop gets round the store (a filter here would leave a pipeline unknown for ever)
+            skip_ = g.path_avoiding(hid_, {hid_, g.exit.id}, {g.node_of(a).id}, edge_ok=lambda p_, q_, lab, hid_=hid_: not (p_ == hid_ and lab == "done"))
+            okadd = byp is None and skip_ is None
     ctx.ob(3, "K3", "after the call every new pipeline joins the known set (on every path that made the call)", okadd, f, adds[0] if adds else f.node, construct="merge of new pipelines",
            detail=f"{[stmt_text(a) for a in adds]}")
     okdel = False
@@ -497,7 +598,7 @@ def check_decoding(ctx, num=5):
         d = f"entry variable `{v}` over {norm.U(src) if src is not None else None}; every entry decoded: {every}"
     ctx.ob(num, "K6", "every suspension of the reply is decoded into Suspend(container_id, pool_id), unchanged and in order", ok, f2, sc[0] if sc else f2.node, detail=d)
     # operator registry: filled for every operator of every new pipeline before the call
-    rs = P.fn(REST, "rest_scheduler")
+    rs = _normalise_rest(P.fn(REST, "rest_scheduler"))
     g = cfg_of(rs, subst_env=False)
     s_p = rs.params()[0]
     regs = [n for n in own_nodes(rs.node) if isinstance(n, ast.Assign) and isinstance(n.targets[0], ast.Subscript) and norm.U(n.targets[0].value) == f"{s_p}.operator_lookup"]
@@ -508,6 +609,13 @@ def check_decoding(ctx, num=5):
         ol = enclosing_for(il, rs.node) if il is not None else None
         okreg = il is not None and ol is not None and norm.is_name(ol.iter, rs.params()[2]) and norm.U(il.iter) == f"{ol.target.id}.values" \
             and norm.U(regs[0].targets[0].slice) == f"str({il.target.id}.id)" and norm.is_name(regs[0].value, il.target.id) and g.dominates(ol, posts[0])
+        if okreg:
+            # every operator of every new pipeline: neither loop has an iteration that gets round the store
+            for lp_ in (il, ol):
+                h_ = g.node_of(lp_).id
+                if g.path_avoiding(h_, {h_, g.exit.id}, {g.node_of(regs[0]).id} | ({g.node_of(il).id} if lp_ is ol else set()),
+                                   edge_ok=lambda p_, q_, lab, h_=h_: not (p_ == h_ and lab == "done")) is not None:
+                    okreg = False
     ctx.ob(num, "K6", "every operator of every newly arrived pipeline is registered under str(id) before the call, so the reply can name it", okreg, rs, regs[0] if regs else rs.node,
            construct="operator_lookup registration", detail=f"{[stmt_text(r) for r in regs]}")
 
